@@ -45,6 +45,9 @@ type concOp struct {
 type concThread struct {
 	Tid int      `json:"tid"`
 	Ops []concOp `json:"ops"`
+	// PaceUs: pause between two operations of this thread in stress mode (spreads a short op list over
+	// the duration of a long operation of another thread)
+	PaceUs int `json:"pace_us,omitempty"`
 }
 
 type concRun struct {
@@ -53,6 +56,13 @@ type concRun struct {
 	Mode      string       `json:"mode"`
 	Schedule  []int        `json:"schedule"`
 	YieldSeed uint64       `json:"yield_seed"`
+	// Prefill: number of filler signatures added (unlogged) before the run.  Their IDs sort before every ID
+	// of the run and their hashes are never scanned for, so no correct scan can return one: the contract
+	// does not track them (a filler in a result is an unknown ID, hence rejected).  They make the database
+	// large enough for a rebuild to commit in several chunks.
+	Prefill int `json:"prefill,omitempty"`
+	// Post: operations executed by the main thread after all threads have finished (quiescent state)
+	Post []concOp `json:"post,omitempty"`
 }
 
 type concPlan struct {
@@ -154,6 +164,13 @@ func (y *yielder) next() uint64 {
 }
 
 func (y *yielder) gate(point string) {
+	if point == "rebuild.chunk" {
+		// a chunk boundary inside a long maintenance operation: linger, so that the other threads reach
+		// whatever they are going to wait on.  (Go's mutex hands the lock directly to a waiter that has
+		// waited for more than 1 ms: if the store lock is given up at this boundary, a writer gets in.)
+		time.Sleep(3 * time.Millisecond)
+		return
+	}
 	switch r := y.next() % 16; {
 	case r < 6:
 		runtime.Gosched()
@@ -344,7 +361,28 @@ func (d *concDrv) run(ri int, r concRun) error {
 		d.js = jsondb.NewScanner()
 		d.js.SetThreshold(float64(d.theta) / 1e9)
 	}
+	if r.Prefill > 0 {
+		fill := make([]detection.Signature, 0, r.Prefill)
+		fillp := make([]*detection.Signature, 0, r.Prefill)
+		for i := 0; i < r.Prefill; i++ {
+			fill = append(fill, detection.Signature{ID: fmt.Sprintf("a%05d", i), Name: fmt.Sprintf("filler%d", i), Severity: "LOW",
+				TopologyHash: fmt.Sprintf("f111e4%06d", i), FuzzyHash: "fF1LL", EntropyScore: 7.5, EntropyTolerance: 0.1, NodeCount: 3})
+		}
+		for i := range fill {
+			fillp = append(fillp, &fill[i])
+		}
+		var ferr error
+		if d.backend == "pebble" {
+			ferr = d.peb.AddSignatures(fillp)
+		} else {
+			ferr = d.js.AddSignatures(fill)
+		}
+		if ferr != nil {
+			return fmt.Errorf("prefill: %w", ferr)
+		}
+	}
 	d.assignVers(r.Setup)
+	d.assignVers(r.Post)
 	for i := range r.Threads {
 		d.assignVers(r.Threads[i].Ops)
 	}
@@ -368,6 +406,9 @@ func (d *concDrv) run(ri int, r concRun) error {
 				<-start
 				for _, o := range th.Ops {
 					d.exec(th.Tid, o)
+					if th.PaceUs > 0 {
+						time.Sleep(time.Duration(th.PaceUs) * time.Microsecond)
+					}
 					if y.next()%4 == 0 {
 						runtime.Gosched()
 					}
@@ -457,6 +498,9 @@ func (d *concDrv) run(ri int, r concRun) error {
 		pebbledb.VerifGateHook = nil
 	default:
 		return fmt.Errorf("unknown mode %q", r.Mode)
+	}
+	for _, o := range r.Post {
+		d.exec(0, o)
 	}
 	return nil
 }
